@@ -153,12 +153,14 @@ static std::string gen(const std::string &prop, uint64_t base, uint64_t idx, boo
                 unsigned roomv = (unsigned)b.pay - (am == 1 ? 4 : 2 + plen2) - 2 - 8;
                 unsigned nel = (unsigned)(r.chance(0.5) ? r.below(8) : r.below(roomv / es + 1));
                 line(strf("op b=%d vssenc am=%u dt=%u plen=%u sid=0x%x v=0x0 pseed=0x%llx alen=%u", b.id, am, vdt[vi], plen2, (unsigned)r.next(), (unsigned long long)r.next(), nel * es));
+                if (r.coin()) { line(strf("op b=%d vssdec", b.id)); i++; }
                 continue;
             }
             unsigned room = (unsigned)b.pay - nb[dt] - 2;
             unsigned plen = am == 1 ? 0 : (unsigned)(r.chance(0.4) ? std::min<unsigned>(room, (unsigned[]){0, 1, 13, 255, 256, 1009, 1010, 1013, 1020, 1021, 2000}[r.below(11)]) : r.below(room + 1));
             line(strf("op b=%d vssenc am=%u dt=%u plen=%u sid=0x%x v=0x%llx pseed=0x%llx", b.id, am, dt, plen, (unsigned)r.next(), (unsigned long long)(dt == 8 ? r.below(2) : r.next()),
                       (unsigned long long)r.next()));
+            if (r.coin()) { line(strf("op b=%d vssdec", b.id)); i++; }
             continue;
         }
         if (std::string(f->name) == "Vss" && b.pay >= 300 && r.chance(0.12)) {
@@ -267,6 +269,13 @@ struct Buf {
     std::map<std::string, int> wr_task_seq;
     std::map<std::string, std::string> wr_via;
     int last_reloc = -1;
+    // the VSS message last encoded into this buffer (valid until another operation writes the buffer)
+    bool vss_ok = false;
+    unsigned vss_am = 0, vss_dt = 0;
+    std::vector<char> vss_path;
+    std::vector<uint8_t> vss_arr;
+    uint64_t vss_v = 0;
+    int vss_op = -1;
 };
 
 static sim::RunResult g_res;
@@ -593,6 +602,28 @@ static void exec(const std::string &text, bool verbose) {
             per_entry["entry.vss_encode"]++;
             check_bytes(strf("Vss.<encode>:%s", am == 1 ? "static" : "interop"), strf("after encoding datatype 0x%x behind a %s path of %zu bytes", dt, am == 1 ? "static-id" : "interop", plen));
             b.has_last = false;
+            b.vss_ok = true; b.vss_am = am; b.vss_dt = dt; b.vss_path.assign(path.begin(), path.begin() + plen); b.vss_arr.assign(arr.begin(), arr.begin() + alen); b.vss_v = v; b.vss_op = op_index;
+            continue;
+        }
+        if (what == "vssdec") {
+            // decoding is reading: the message (in read-only pages when the run has them) must not change, and what comes out is what went in
+            if (std::string(f->name) != "Vss" || !b.vss_ok || b.vss_op != op_index - 1) continue;
+            std::vector<char> pdst(b.vss_path.size() + 16, 0x7e);
+            std::vector<uint8_t> adst(b.vss_arr.size() + 32, 0x7e);
+            char *pp = pdst.data();
+            uint8_t *ap = adst.data();
+            ev("vssdec", strf("b=%d am=%u dt=0x%x", b.id, b.vss_am, b.vss_dt));
+            buf_protect(a.raw, a.size, true);
+            DIRTY();
+            (void)drv_vss_decode(pdu, pp, ap);
+            buf_protect(a.raw, a.size, false);
+            per_entry["entry.vss_decode"]++;
+            check_bytes("Vss.<decode>", "after decoding the message (a read)");
+            if (b.vss_am == 0 && (memcmp(pdst.data(), b.vss_path.data(), b.vss_path.size()) || (uint8_t)pdst[b.vss_path.size()] != 0x7e))
+                violation("read:Vss.<decode>:path", strf("the decoded interop path (%zu bytes) differs from the encoded one, or bytes behind it were written", b.vss_path.size()));
+            bool var = b.vss_dt == 0xB || b.vss_dt >= 0x80;
+            if (var && (memcmp(adst.data(), b.vss_arr.data(), b.vss_arr.size()) || adst[b.vss_arr.size()] != 0x7e))
+                violation("read:Vss.<decode>:value", strf("the decoded string/array value (%zu bytes, datatype 0x%x) differs from the encoded one, or bytes behind it were written", b.vss_arr.size(), b.vss_dt));
             continue;
         }
         if (what == "build" && kv.str("kind") == "vsspad") {
@@ -763,7 +794,7 @@ int main(int argc, char **argv) {
              "write to a different field of the same quadlet";
     e.probes = {"probe.cross_quadlet_field_written", "probe.value_wider_than_field", "probe.relocation_between_write_and_read", "probe.legacy_write_current_read",
                 "probe.task_switch_between_write_and_read", "probe.acf_message_inside_control_pdu", "probe.second_view_of_same_header", "entry.set.gen", "entry.set.ded", "entry.set.leg",
-                "entry.get.gen", "entry.get.ded", "entry.get.leg", "entry.init.cur", "entry.init.legacy", "entry.fused", "entry.set.constant", "entry.build.create", "entry.build.finalize", "entry.build.setpayload", "entry.build.vsspad", "entry.vss_encode", "value.derived",
+                "entry.get.gen", "entry.get.ded", "entry.get.leg", "entry.init.cur", "entry.init.legacy", "entry.fused", "entry.set.constant", "entry.build.create", "entry.build.finalize", "entry.build.setpayload", "entry.build.vsspad", "entry.vss_encode", "entry.vss_decode", "value.derived",
                 "probe.unaligned_placement"};
     e.real_components = {"libopen1722 + libopen1722custom objects built from /repo/src (working tree)", "call bindings generated from /repo/include at build time"};
     e.stub_components = {"callers (seeded histories)", "reference model: spec/fields.def + bit-at-a-time packer (spec/wire.h)"};
